@@ -128,7 +128,10 @@ ProcessLogon(ep, f, up) ==
     IF ep.role \notin {"ACCEPTOR", "INITIATOR"} THEN Err(ep, "AssertionError")
     ELSE IF ep.role = "ACCEPTOR" /\ ep.cs # LIR THEN Err(ep, "AssertionError")
     ELSE IF ep.role = "INITIATOR" /\ ep.cs # LIS THEN Err(ep, "AssertionError")   \* Logon only answers our Logon
-    ELSE LET e1 == IF ep.role = "ACCEPTOR" /\ f.seq >= ep.nin THEN SendMsg(ep, Frame("LOGON", 0), up) ELSE ep IN
+    ELSE LET \* the acceptor copies EncryptMethod / HeartBtInt of the peer's Logon into its reply: a Logon without them raises
+             e1 == IF ep.role = "ACCEPTOR" /\ f.seq >= ep.nin
+                   THEN IF f.hdr \in {"nohb", "noenc"} THEN Err(ep, "TagNotFoundError") ELSE SendMsg(ep, Frame("LOGON", 0), up)
+                   ELSE ep IN
          IF Failed(e1) THEN e1
          ELSE LET e2 == SetState(e1, IF f.seq = e1.nin THEN "ACTIVE" ELSE TOOHIGH)
               IN Cb(e2, IF e2.cs = "ACTIVE" THEN "logon:ok" ELSE "logon:gap")
@@ -232,6 +235,8 @@ ProcessMessage(ep0, f, now, declined, up) ==
     ELSE IF Rank(ep.cs) < 6 THEN ep                                            \* assertion, swallowed
     ELSE IF ep.cs = NCE /\ f.kind # "LOGON" THEN Swallow(Disconnect(ep, BROKEN, "none", up))
     ELSE IF ep.cs = LIS /\ f.kind \notin {"LOGON", "LOGOUT"} THEN Swallow(Disconnect(ep, BROKEN, "none", up))
+    \* LOGON_INITIAL_RECV is left by _process_logon in the same step unless it raised: the Logon exchange has not completed
+    ELSE IF ep.cs = LIR /\ f.kind # "LOGON" THEN Swallow(Disconnect(ep, BROKEN, "none", up))
     ELSE
       LET e1 == IF ep.cs = NCE THEN [SetState(ep, LIR) EXCEPT !.role = "ACCEPTOR"] ELSE ep
           sr == IF f.kind = "SEQRESET" THEN ProcessSeqReset(e1, f) ELSE [ep |-> e1, go |-> TRUE]
